@@ -42,6 +42,7 @@ class Result(object):
         self.solver_s = 0.0
         self.by_backend = {}
         self.slowest = []
+        self.stale = []
         self.by_kind = {}
         self.dropped = {}
         self.notes = []
@@ -325,6 +326,11 @@ def gen_item(args):
             out['obs'].append(rec)
     except Unsupported as e:
         out['unsupported'] = ('%s/%s' % (prop, it.name), 'unsupported: %s' % e)
+        try:
+            m_, _c, fdef_ = repo.find_function(it.target[0], it.target[1])
+            out['unsupported_sha'] = func_hash(m_, fdef_)
+        except Exception:
+            out['unsupported_sha'] = None
     except CheckerDefect as e:
         out['error'] = 'CHECKER-DEFECT %s' % e
     return out
@@ -353,7 +359,12 @@ def check_property(prop, tier='quick', seed=0, only=None):
     for out in outs:
         if out['error']:
             raise CheckerDefect(out['error'])
-        res.undecided.extend(out['undecided'])
+        for full_, why_ in out['undecided']:
+            sha_ = (out.get('function') or {}).get('source_sha')
+            if why_.startswith('stale contract') and contract_text_changed(res, out['name'], sha_):
+                res.stale.append((full_, why_))
+            else:
+                res.undecided.append((full_, why_))
         if out.get('unsupported'):
             # the function left the verifiable subset (typically after a code change): undecided, unless
             # the contract's replay search finds an input on which the real code breaks the contract
@@ -369,6 +380,11 @@ def check_property(prop, tier='quick', seed=0, only=None):
             if rep and rep.get('confirmed'):
                 res.violations.append(dict(kind='obligation', obligation=full + '/contract-no-longer-checkable', line=None, model=None,
                                            replay=rep, solver=[dict(reason=why)]))
+            elif contract_text_changed(res, it.name, out.get('unsupported_sha')):
+                # the function under contract was edited and the contract can no longer be evaluated on it (renamed locals, restructured
+                # statements, constructs outside the subset); the contract's own replay search found no failing input.  Not an alarm:
+                # reported, recorded in the evidence, decided by the bounded tier that follows.
+                res.stale.append((full, why))
             else:
                 res.undecided.append((full, why))
         if out['function']:
@@ -528,6 +544,15 @@ def second_opinion(rec):
     return ok
 
 
+def contract_text_changed(res, contract, sha):
+    """the recorded baseline knows this contract's function with another source hash (None: no baseline / unknown function -> not changed)"""
+    b = res.baseline
+    if not b or sha is None:
+        return False
+    info = b.get('functions', {}).get(contract)
+    return info is not None and info.get('source_sha') != sha
+
+
 def lost_by_code_change(res, full, it, eng):
     b = res.baseline
     if not b or full not in b.get('discharged', []):
@@ -605,6 +630,8 @@ def finish(res, mod, tier, seed, level):
     for full, why in res.undecided:
         log('UNDECIDED property=%s obligation=%s %s' % (prop, full, why))
         exit_code = max(exit_code, 2)
+    for full, why in res.stale:
+        log('STALE-CONTRACT property=%s contract=%s %s (the function text changed since the baseline; replay search and bounded tier decide)' % (prop, full, why))
     for i, v in enumerate(res.violations):
         path = write_replay(prop, i, v)
         tail = ''
@@ -639,6 +666,7 @@ def finish(res, mod, tier, seed, level):
         samples=samples,
         known_findings=[k['what'] for k, _ in res.known],
         undecided=[list(u) for u in res.undecided],
+        stale_contracts=[list(u) for u in res.stale],
     )
     if res.bounded is not None:
         b = res.bounded
